@@ -92,6 +92,7 @@ impl<'l, F: AsFd> Async<'l, F> {
         unsafe {
             inner.register(&dispatcher)?;
         }
+        dispatcher.borrow_mut().is_registered = true;
 
         // Straightforward casting would require us to add the bound `Data: 'l` but we don't actually need it
         // as this module never accesses the dispatch data, so we use transmute to erase it
@@ -227,6 +228,15 @@ impl<Data> IoLoopInner for LoopInner<'_, Data> {
             .expect("No token for IO dispatcher");
         if let Ok(slot) = self.sources.borrow_mut().get_mut(token.inner) {
             slot.source = None;
+        }
+        // Also remove the fd from the poller, so that it can be registered again later on
+        // (the adapter may be gone long before the fd itself is closed).
+        let mut disp = dispatcher.borrow_mut();
+        if disp.is_registered {
+            if let Ok(poll) = self.poll.try_borrow_mut() {
+                let _ = poll.unregister(unsafe { BorrowedFd::borrow_raw(disp.fd) });
+                disp.is_registered = false;
+            }
         }
     }
 }
